@@ -213,6 +213,21 @@ def run(ctx, rep):
                     rep.problem("weighted", "zero-weight index chosen while positive weights exist (u=%r)" % u, case,
                                 sig, True, o, None, "C11_zero_weight_excluded")
                 f_ws.add(f"({q_list(wf)}, 1%nat, true, {to_draws(script)}, {z_list(o)})", case)
+    # without replacement (rejection loop): every outcome for two / three picks on a coarse u grid
+    cgrid = [0.0, 0.2, 0.45, 0.7, 1.0 - EPS]
+    for w in [(1, 1), (1, 2, 1), (2, 0, 1, 1), (1, 1, 1, 1)]:
+        wf = [float(x) for x in w]
+        npos = sum(1 for x in w if x > 0)
+        for q in range(1, min(3, npos) + 1):
+            for script, r in MR.enumerate_outcomes("thefittest.utils.random.random_weighted_sample",
+                                                   lambda: (np.array(wf), np.int64(q), False), cgrid, max_depth=q + 2):
+                o = [int(v) for v in r]
+                case = dict(fn="random_weighted_sample", weights=wf, quantity=q, replace=False, draws=script)
+                rep.count("weighted-noreplace", (tuple(w), q, tuple(script)))
+                if len(o) != q or len(set(o)) != q or any(not (0 <= v < len(w)) for v in o):
+                    rep.problem("weighted", "sampling without replacement did not yield distinct in-range values", case,
+                                "weighted:noreplace", True, o, None, "C11_sample_distinct")
+                f_ws.add(f"({q_list(wf)}, {C.cnat(q)}, false, {to_draws(script)}, {z_list(o)})", case)
     rep.hist("ugrid", len(ugrid))
     # measure form of "frequencies follow the weights": on a fine grid the share of u mapped to i is w_i/S
     for w in [(1, 2, 1), (0, 3, 1), (2, 0, 0, 2), (1, 1, 1, 1, 4)]:
